@@ -126,6 +126,44 @@ func C04(c *fw.Ctx) {
 			}
 		}
 	}
+	// (a1) a function that uses its own name as a variable while activations of it are pending: the body
+	// is three slots, each one of {nothing, print the name, assign the name, one deeper call (depth < 2),
+	// call through the name after assigning?}; called twice, then the name printed from outside; the same
+	// for an inner function made by a factory (two instances)
+	{
+		id, num := model.Id, model.Num
+		slot := func(k int, fn string) []*model.N {
+			switch k {
+			case 1:
+				return []*model.N{model.Print(id(fn))}
+			case 2:
+				return []*model.N{model.ExprS(model.Asg(fn, model.Bin("+", model.Bin("*", id("d"), num(100)), num(7))))}
+			case 3:
+				return []*model.N{model.If(model.Bin("<", id("d"), num(2)), model.Block(model.Print(model.CallN(fn, model.Bin("+", id("d"), num(1))))), nil)}
+			}
+			return nil
+		}
+		for code := 0; code < 64; code++ {
+			if !c.Mine() {
+				continue
+			}
+			body := func(fn string) []*model.N {
+				var b []*model.N
+				b = append(b, model.Print(model.Bin("+", model.Str("enter "), id("d"))))
+				for k := 0; k < 3; k++ {
+					b = append(b, slot((code>>(2*uint(k)))&3, fn)...)
+				}
+				return append(b, model.Return(model.Bin("+", id("d"), num(1000))))
+			}
+			prog := []*model.N{model.Fun("sf", []string{"d"}, body("sf")...),
+				model.Print(model.CallN("sf", num(0))), model.Print(model.CallN("sf", num(1))), model.Print(id("sf"))}
+			run(fmt.Sprintf("own-name|direct"), prog)
+			prog2 := []*model.N{model.Fun("mk", nil, model.Fun("inr", []string{"d"}, body("inr")...), model.Return(id("inr"))),
+				model.Var("f1", model.CallN("mk")), model.Var("f2", model.CallN("mk")),
+				model.Print(model.CallN("f1", num(0))), model.Print(model.CallN("f2", num(0))), model.Print(model.CallN("f1", num(1))), model.Print(id("f1"))}
+			run(fmt.Sprintf("own-name|factory"), prog2)
+		}
+	}
 	// (a) return placement
 	var path []string
 	var rec func()
